@@ -293,9 +293,22 @@ def r2_done(ctx, report, model, ab, classes, it):
         if f is not None and not f.abstract:
             report.count('C12.R5')
             report.touch(f)
-            for n in ast.walk(f.node):
-                if isinstance(n, ast.Attribute) and n.attr == '_items_size':
-                    report.add('C12.R5', f.construct + '@prefix', 'length prefix derived from the cached _items_size instead of the composed body')
+            # compose itself and the helper methods of the class chain it calls (a shared "body with header" helper)
+            todo, seen_f = [(f, 0)], set()
+            while todo:
+                g, depth = todo.pop()
+                if id(g) in seen_f:
+                    continue
+                seen_f.add(id(g))
+                for n in ast.walk(g.node):
+                    if isinstance(n, ast.Attribute) and n.attr == '_items_size':
+                        report.add('C12.R5', f.construct + '@prefix', 'length prefix derived from the cached _items_size instead of the composed body' + (
+                            '' if g is f else ' (in %s)' % g.qualname))
+                    if depth < 2 and isinstance(n, ast.Call) and isinstance(n.func, ast.Attribute) and isinstance(n.func.value, ast.Name) and \
+                            n.func.value.id in ('self', 'cls'):
+                        h = c.resolve(n.func.attr)
+                        if h is not None and not h.module.external and h.name not in ('_update_items_size',):
+                            todo.append((h, depth + 1))
         if c.resolve('get_param') is not None and not c.resolve('get_param').abstract and not c.abstract_methods:
             prm = it.const_call(c, 'get_param')
             if isinstance(prm, ObjV):
